@@ -11,6 +11,21 @@ NA = {
 }
 
 CHECKS = {
+    'C06': dict(
+        category='other', design_ref='DESIGN.md §5 C06',
+        technique='MIR path rule: sparse conditional constant propagation under an assumed to_bool(left) + CFG reachability of evaluation sites',
+        text='For the `&&`, `||`, `?:` arms of the evaluator the skipped operand\'s evaluation site is CFG-unreachable once to_bool(left) is fixed to the deciding value, reachable otherwise, never before the test and never in an operator-agnostic prelude. A statement about every path of the evaluator, hence about every program; not a proof of the whole property because it is intra-procedural (inlining bound 0) and trusts MIR construction.',
+        note='guard must be a boolean function of Value::to_bool(left) inside Value::resolve; anything else fails closed; macros expand to these operators (C10)'),
+    'C07': dict(
+        category='other', design_ref='DESIGN.md §5 C07',
+        technique='MIR path-sequence rules: CFG reachability/dominance between provenance-identified evaluation sites, extractor and adapter shape rules, who-may-call rule',
+        text='Decides the structural clauses: nothing is evaluated before the lazy function dispatch, sites of one node are ordered by argument index and not re-entered without advancing an iterator, extractors consume arguments one by one, only the evaluator layer calls resolve, the 20 adapters extract C1..Cn in order. "Bounded work" is the consequence and is not measured.',
+        note='host functions using Arguments together with positional extractors or the public FunctionContext fields are outside the claim; std iterator contracts trusted'),
+    'C08': dict(
+        category='other', design_ref='DESIGN.md §5 C08',
+        technique='MIR operator whitelist + provenance-checked sibling table over the five arithmetic impls and unary minus',
+        text='No raw integer arithmetic or non-checked integer method in the arithmetic impls/unary minus; each (trait, kind) uses checked_<same op> with (self,rhs) operand order and Some->same kind / None->expected error; Int Div/Rem test for zero first; no numeric casts or mixed numeric arms. With std\'s checked_* contract this implies exact-or-error for all operands.',
+        note='std checked_* contract trusted; f64 arithmetic is IEEE by construction'),
     'C05': dict(
         category='proof', design_ref='DESIGN.md §5 C05',
         technique='type-closure + HIR item enumeration + MIR call-site rules + rustc compile_fail witnesses',
